@@ -25,6 +25,11 @@ def obligations(tier):
     for kind, name, kw, w in all_specs(tier):
         n0 = max(w + 4, 12)
         tail = {"ADX": 0, "Supertrend": 1}.get(name, SYMBOLIC_TAIL)   # their branch conditions involve length-dependent smoothed state
+        if kind == "ind":
+            # degenerate stream: a flat, zero-volume history (every helper series reads exactly 0 / stays constant) - the
+            # place where 'is there a reading?' shortcuts that test truthiness start rescanning
+            obs.append(Ob(f"standalone-flat-history/{spec_name((kind, name, kw))}", dict(spec=[kind, name, kw], n0=n0, grow=grow, host="indicator", tail=min(tail, 1), flat=True), CFG,
+                          weight=10, budget_s=300, max_paths=20000, selfcheck=False))
         obs.append(Ob(f"standalone/{spec_name((kind, name, kw))}", dict(spec=[kind, name, kw], n0=n0, grow=grow, host="indicator", tail=tail), CFG, weight=10, budget_s=900, max_paths=20000, selfcheck=False))
     for trio in ([("ind", "EMA", dict(period=3)), ("ind", "RSI", dict(period=3)), ("ind", "BBANDS", dict(period=3))],
                  [("ind", "MACD", dict(fast_period=2, slow_period=3, signal_period=2)), ("ind", "STOCH", dict(period=3, slow_period=2, smoothing_k=2)), ("amorph", "rising", dict(indicator="close", length=2))]):
@@ -46,12 +51,15 @@ def fixture():
 FIX_END = 300
 
 
-def history(ctx, length, tail_vals):
+def history(ctx, length, tail_vals, flat=False):
     """`length` candles: the fixture rows that END at row FIX_END (a longer history reaches further back, the recent
     concrete candles are the same at every length) + the shared symbolic tail"""
     _, _, Candle, _, _ = lib()
     tail = len(tail_vals)
     rows = fixture()[FIX_END - (length - tail): FIX_END]
+    if flat:
+        r0 = fixture()[FIX_END]
+        rows = [dict(open=r0["close"], high=r0["close"], low=r0["close"], close=r0["close"], volume=0)] * (length - tail)
     out = [Candle(float(r["open"]), float(r["high"]), float(r["low"]), float(r["close"]), int(r["volume"]), timestamp=ctx.const_time(GRID0 + 60 * (i + 1))) for i, r in enumerate(rows)]
     for j, (o, h, l, c, v) in enumerate(tail_vals):
         out.append(Candle(o, h, l, c, v, timestamp=ctx.const_time(GRID0 + 60 * (length - tail + j + 1))))
@@ -103,7 +111,7 @@ def run(ctx, P):
     tail_vals = [sym_ohlcv(ctx, j, prefix="tail") for j in range(ntail)]
     newv = sym_ohlcv(ctx, 0, prefix="new")
     for n in lengths:
-        hist = history(ctx, n, tail_vals)
+        hist = history(ctx, n, tail_vals, P.get("flat", False))
         o, h, l, c, v = newv
         new = Candle(o, h, l, c, v, timestamp=ctx.const_time(GRID0 + 60 * (n + 1)))
         if P["host"] == "indicator":
@@ -153,7 +161,7 @@ def finalize(col, obd, replayer):
 
 
 META = dict(
-    bounds=dict(quick="every catalogue indicator and analysis wrapper standalone + two Hexitals of three; append measured at history length n0 (>= warm-up+4) and n0+8, n0+24; last 2 history candles (Supertrend 1, ADX 0) and the appended candle symbolic, shared by all lengths, earlier history = tests/data/test_candles.json",
+    bounds=dict(quick="every catalogue indicator and analysis wrapper standalone + two Hexitals of three; append measured at history length n0 (>= warm-up+4) and n0+8, n0+24; last 2 history candles (Supertrend 1, ADX 0) and the appended candle symbolic, shared by all lengths, earlier history = tests/data/test_candles.json, and a second family whose earlier history is flat with zero volume",
                 thorough="n0+8, +24, +64, +160"),
     stubs=["work = executed lines / _calculate_reading calls in hexital/{indicators,analysis,utils}, core/indicator.py, core/hexital.py, counted by sys.settrace during the real append; candle_manager.py excluded (its collapse pass is outside the property's observation point)"],
     assumptions=["the unbounded 'for all n' is not claimed: a regression that rescans or recomputes history grows by >= 2 lines per candle and exceeds the slack (12 lines; measured variation between lengths is <= 4 lines) inside the bound", "older history is concrete: work depends on values only through branches on recent candles"],
